@@ -583,6 +583,17 @@ theorem C05_id_keyed_unpinned :
     ∃ hist, hrun false true Heap.init hist ≠ hrun false false Heap.init hist :=
   ⟨[.alloc ⟨1, 10⟩, .use 1, .drop 1, .alloc ⟨1, 20⟩, .use 1], by decide⟩
 
+/-- an AST cache looked up by the code object ITSELF (equality) in front of id-keyed caches is not transparent: the second, equal but
+    distinct code object hits, is not kept alive, dies, and a different code object allocated at its address inherits its id-keyed
+    entries (extractors, translator, SQL, results) — seven steps -/
+theorem C05_ast_cache_by_equality_breaks :
+    ∃ hist, hrun2 true true Heap2.init hist ≠ hrun2 true false Heap2.init hist :=
+  ⟨[.alloc ⟨1, 10⟩, .use 1, .alloc ⟨2, 10⟩, .use 2, .drop 2, .alloc ⟨2, 20⟩, .use 2], by decide⟩
+
+/-- with the id as key and a pin on every use the same seven steps — and the rounds the engine runs — answer cold -/
+example : hrun2 false true Heap2.init [.alloc ⟨1, 10⟩, .use 1, .alloc ⟨2, 10⟩, .use 2, .drop 2, .alloc ⟨3, 20⟩, .use 3, .drop 3, .alloc ⟨4, 10⟩, .use 4]
+    = hrun2 false false Heap2.init [.alloc ⟨1, 10⟩, .use 1, .alloc ⟨2, 10⟩, .use 2, .drop 2, .alloc ⟨3, 20⟩, .use 3, .drop 3, .alloc ⟨4, 10⟩, .use 4] := by decide
+
 /-- the code as it is keeps the pin (flag regenerated from pony/utils/utils.py) -/
 theorem C05_codeobjects_pinned : CacheKeys.codeobjectsPinned = true := by decide
 
